@@ -4,7 +4,7 @@ from vlib import ref_token
 # candidates: printable non-alphanumerics and a few control characters
 SEG_CANDS = list('~!\'$%&?@[]{}|<>=;`^+#') + ['\n', '\x1c', '\x1e', '\x15']
 ELE_CANDS = list('*|^+!,;=#%&@?<>') + ['\x1d', '\x1f']
-SUB_B = list(':!&()+,./;?=\'"')                      # component separator must be in the basic character set
+SUB_B = list(':!&()+,./;?=\'"*-')                    # component separator must be in the basic character set (all its punctuation, incl. * and -)
 SUB_E = SUB_B + list('\\|<>~@[]_{}#$%')              # ... or the extended one when charset E
 EOLS = ['', '\n', '\r\n', '\r', '\n\n']
 
